@@ -436,12 +436,21 @@ def _hasattr(eng, o, name):
 
 def _any(eng, it):
     from .interp import _or
+    if is_obj(it):
+        # opaque sequence: any(x) is an uninterpreted predicate of x; it implies that x is non-empty
+        f = ufunc("any_true", Obj, B)
+        eng._fact_once(z3.Implies(f(it), len_of(it) > 0))
+        return f(it)
     items = eng.iterate(it)
     return _or([eng.to_bool(x) for x in items])
 
 
 def _all(eng, it):
     from .interp import _and
+    if is_obj(it):
+        f = ufunc("all_true", Obj, B)
+        eng._fact_once(z3.Implies(len_of(it) == 0, f(it)))
+        return f(it)
     items = eng.iterate(it)
     return _and([eng.to_bool(x) for x in items])
 
